@@ -214,6 +214,11 @@ impl Ctx {
             Mutex::new(Default::default());
         let fail: Mutex<Option<Failure>> = Mutex::new(None);
         let open: Vec<String> = self.open.iter().map(|x| x.0.clone()).collect();
+        // isolation mode: cases run in child processes; schedule enumeration and twin campaigns are skipped
+        let isolate_campaign = crate::twin::isolate_enabled();
+        if isolate_campaign && (c.name.contains("dfs") || c.name.contains("twins") || c.name.contains("real")) {
+            return;
+        }
         let prop = self.prop.clone();
         let seed = self.seed;
         std::thread::scope(|s| {
@@ -238,6 +243,8 @@ impl Ctx {
                     };
                     let _ = seed_bytes;
                     let mut runner = TestRunner::new(cfg);
+                    let isolate = isolate_campaign;
+                    let engine: &str = cname.split('-').next().unwrap_or("seq");
                     let strategy = (c.make_strategy)();
                     let local_hashes: std::cell::RefCell<HashSet<u64>> = Default::default();
                     let local_classes: std::cell::RefCell<BTreeMap<String, u64>> = Default::default();
@@ -253,7 +260,11 @@ impl Ctx {
                         }
                         let out = {
                             let _running = watchdog::enter(w, &case);
-                            (c.run)(&case)
+                            if isolate {
+                                crate::twin::judge_isolated(prop, engine, &case)
+                            } else {
+                                (c.run)(&case)
+                            }
                         };
                         if !failing.get() {
                             evals.fetch_add(out.evals.max(1), Ordering::Relaxed);
@@ -313,7 +324,7 @@ impl Ctx {
                     }
                     if let Err(TestError::Fail(_, case)) = res {
                         // re-run the minimal case to get its own violation text
-                        let out = (c.run)(&case);
+                        let out = if isolate { crate::twin::judge_isolated(prop, engine, &case) } else { (c.run)(&case) };
                         let case = out.witness.clone().unwrap_or(case);
                         let (v, sig) = match out.verdict {
                             Err(v) => {
